@@ -158,8 +158,9 @@ def typed_pool(E, specs, L=1, scheme=b"http", tag="t"):
             base = pool[sp["extend"]]
             stems = list(base.stems)
             kinds = list(base.kinds)
-            for q in range(sp.get("paths", 1)):
-                stems.append(E.const(b"p:") + E.bytes("%s%d.p%d" % (tag, i, q), L) + E.const(b"|"))
+            lens = sp.get("pathL") or [L] * sp.get("paths", 1)
+            for q, ln in enumerate(lens):
+                stems.append(E.const(b"p:") + payload(E, "%s%d.p%d" % (tag, i, q), ln, sparse=True) + E.const(b"|"))
                 kinds.append("p")
             pool.append(PL(stems, "%s%d" % (tag, i), kinds))
             continue
